@@ -1445,8 +1445,8 @@ func verifH_E2EMulti() {
 		err     error
 	}
 	var ends []*end
-	for i := 0; i < nt; i++ {
-		e := &end{name: []string{"t0", "t1", "t2"}[i]}
+	openEnd := func(i int) {
+		e := &end{name: []string{"t0", "t1", "t2", "t3"}[i]}
 		e.stub = &vE2EStub{svc: h.Service()}
 		e.rts = NewReverseTunnelServer(e.stub)
 		hm := grpchan.HandlerMap{}
@@ -1471,6 +1471,11 @@ func verifH_E2EMulti() {
 		})
 		verifDrain()
 	}
+	for i := 0; i < nt; i++ {
+		openEnd(i)
+	}
+	// channel values obtained now are used much later: they must keep following the registry
+	early := map[string]ReverseClientConnInterface{"a": h.KeyAsChannel("a"), "b": h.KeyAsChannel("b")}
 	byName := func(tc TunnelChannel) *end {
 		for _, e := range ends {
 			if e.name == nameOf(tc) {
@@ -1602,6 +1607,21 @@ func verifH_E2EMulti() {
 		cancel()
 		verifDrain()
 		verifAssert(waited && werr == context.Canceled, "C12.multi-wait-for-ready-honours-its-context")
+		// a tunnel with that key opens again: the keyed channel obtained at the very beginning sees it, and a
+		// WaitForReady that was started on it while no such tunnel was open is released by its registration
+		verifCover("multi-key-returns")
+		verifAssert(!early[vk].Ready(), "C12.multi-early-keyed-channel-not-ready-while-no-matching-tunnel")
+		var w2 error
+		released := false
+		verifGo("early-waiter", func() { w2 = early[vk].WaitForReady(context.Background()); released = true })
+		verifDrain()
+		verifAssert(!released, "C12.multi-early-waiter-waits")
+		keys = append(keys[:3:3], vk)
+		openEnd(3)
+		verifAssert(released && w2 == nil, "C12.multi-a-waiter-is-released-by-the-next-matching-tunnel")
+		verifAssert(early[vk].Ready(), "C12.multi-a-keyed-channel-obtained-earlier-follows-the-registry")
+		tc, err := call(early[vk])
+		verifAssert(err == nil && tc != nil && nameOf(tc) == "t3", "C12.multi-a-keyed-channel-obtained-earlier-routes-to-the-new-tunnel")
 	}
 	// ---- the others end, too
 	for i, e := range ends {
